@@ -384,10 +384,17 @@ def _run_pretty_visiting(pretty_fn, value, ctx, trailing_comment):
                         type(value).__name__, fnname
                     )
                 )
-                doc = pretty_fn(value, ctx)
+                try:
+                    doc = pretty_fn(value, ctx)
+                except Exception as e2:
+                    _warn_about_bad_printer(pretty_fn, value, exc=e2)
+                    doc = repr(value)
             else:
                 _warn_about_bad_printer(pretty_fn, value, exc=e)
                 doc = repr(value)
+        except Exception as e:
+            _warn_about_bad_printer(pretty_fn, value, exc=e)
+            doc = repr(value)
     else:
         try:
             doc = pretty_fn(value, ctx)
